@@ -64,16 +64,31 @@ TRUSTED = ['NLSF2A ordering tables ordering10/ordering16 and the constants of si
            'Q16) are function-local in C and hand-transcribed in the model; they are covered by the differential run only']
 
 
+def _wait_driver(secs=120):
+    """The shared driver binary disappears for a moment while another owner's run relinks it; wait for it."""
+    import os, time
+    t0 = time.time()
+    while not os.path.exists(common.driver_path()) and time.time() - t0 < secs:
+        time.sleep(2)
+    if not os.path.exists(common.driver_path()):
+        common.lake_build(['opusmodel'])
+
+
+def _tie(*a, **k):
+    _wait_driver()
+    return common.run_tie(*a, **k)
+
+
 def ties(ctx):
     h = ctx.harness('c18_silkparams', ['c18_silkparams.c'], variant='san')
     q = ctx.quick
     s = str(ctx.seed)
     out = []
-    out.append(common.run_tie('silkparams-nlsfdec', [h, 'nlsfdec', s, '15000' if q else '400000']))
-    out.append(common.run_tie('silkparams-stab', [h, 'stab', s, '40000' if q else '1000000']))
-    out.append(common.run_tie('silkparams-nlsf2a', [h, 'nlsf2a', s, '12000' if q else '250000']))
-    out.append(common.run_tie('silkparams-gains', [h, 'gains', s, '30000' if q else '600000']))
-    out.append(common.run_tie('silkparams-pitch', [h, 'pitch', '0' if q else '1']))
+    out.append(_tie('silkparams-nlsfdec', [h, 'nlsfdec', s, '15000' if q else '400000']))
+    out.append(_tie('silkparams-stab', [h, 'stab', s, '40000' if q else '1000000']))
+    out.append(_tie('silkparams-nlsf2a', [h, 'nlsf2a', s, '12000' if q else '250000']))
+    out.append(_tie('silkparams-gains', [h, 'gains', s, '30000' if q else '600000']))
+    out.append(_tie('silkparams-pitch', [h, 'pitch', '0' if q else '1']))
     _branch_notes(h, s, out)
     return out
 
